@@ -391,6 +391,8 @@ inductive Phase where
   | module
   /-- inside both, the drop hook innermost (`_compile_from_file` while the module file is written) -/
   | parseInModule
+  /-- outside any hook: the warning is displayed as the `warnings` module would display it -/
+  | bare
 deriving DecidableEq, Repr
 
 /-- the display hook chain `_show_warnings_as` builds: where the warning is shown (`none`: not at all),
@@ -402,6 +404,28 @@ def hook (moduleId filename : Str) (fullMap : List Nat) : Phase → W → Option
     match dropLocate w with
     | (none, b) => (none, b)
     | (some (fn, ln), b) => (some (translateLocate moduleId filename fullMap ⟨w.text, fn, ln⟩), b)
+  | .bare, w => (some (w.filename, w.lineno), false)
+
+/-- what `Template._compile_from_file(path, filename)` does with a module file -/
+inductive LoadStep where
+  /-- `_compile_module_file(…)`: lex, parse, generate, write the module file -/
+  | regen
+  /-- `compat.load_module(module_id, path)`: the import system compiles (unless byte code is cached) and
+      executes the module file -/
+  | load
+deriving DecidableEq, Repr
+
+/-- `_compile_from_file` with a module path, as a plan of steps, each with the hook stack it runs under.
+    `upToDate`: the module file exists and is not older than the template file (it is *reused*);
+    `accepted`: the module loaded first has the current magic number and was generated from this template
+    file.  The whole body stands inside `with _translate_module_warnings(…)`; only the regeneration
+    stands inside `_drop_expression_warnings()` as well. -/
+def compileFromFilePlan (upToDate accepted : Bool) : List (LoadStep × Phase) :=
+  (if upToDate then [] else [(.regen, .parseInModule)]) ++ [(.load, .module)]
+    ++ (if accepted then [] else [(.regen, .parseInModule), (.load, .module)])
+
+/-- `_compile_text`: generation inside the drop hook, `compile` + `exec` inside the translation hook -/
+def compileTextPlan : List (LoadStep × Phase) := [(.regen, .parse), (.load, .module)]
 
 /-- outcome of one template compilation -/
 structure Result where
